@@ -1927,9 +1927,17 @@ def infer_case(v, shape, kinds, N, serialise):
             return x
         return builtins.float(x)
 
+    idx_levels = None
     if shape == "series":
         obj = v.series("c0_", kinds[0], N, sname="c0", labels="l")
         cells = {"c0": v.cells("c0_", kinds[0], N, kinds[0] in ("float", "str"))}
+    elif shape in ("mi", "mi_filtered"):
+        # two-level MultiIndex; "mi_filtered": one more row is built and sliced off again (its level values stay in the index)
+        extra = 1 if shape == "mi_filtered" else 0
+        arr = [(f"c{i}", k) for i, k in enumerate(kinds)]
+        obj = v.mi_frame(arr, N, levels=[("k0", "l"), ("k1", "m")], extra_filtered=extra)
+        cells = {c: tuple(x[:N] for x in v.cells(f"{c}_", k, N + extra, k in ("float", "str"))) for c, k in arr}
+        idx_levels = {"k0": v.labels("l", N + extra)[:N], "k1": v.labels("m", N + extra)[:N]}
     else:
         arr = [(f"c{i}", k) for i, k in enumerate(kinds)]
         obj = v.frame(arr, N, labels="l")
@@ -1966,6 +1974,15 @@ def infer_case(v, shape, kinds, N, serialise):
                                                                                     zand(z3.Implies(l, R(x) >= R(mnz)) for x, l in zip(xs, live))))))
                 asserts.append((f"infer/max_is_attained/{cname}", v.holds(z3.And(zor(z3.And(l, R(x) == R(mxz)) for x, l in zip(xs, live)),
                                                                                     zand(z3.Implies(l, R(x) <= R(mxz)) for x, l in zip(xs, live))))))
+        if idx_levels is not None and N > 0:
+            for comp in schema.index.indexes:
+                st = {c.name: c.statistics for c in comp.checks}
+                if "greater_than_or_equal_to" in st and comp.name in idx_levels:
+                    ls = idx_levels[comp.name]
+                    mnz, mxz = v.z(st["greater_than_or_equal_to"]["min_value"]), v.z(st["less_than_or_equal_to"]["max_value"])
+                    R = lambda t: z3.ToReal(t) if z3.is_int(t) else t  # noqa: E731
+                    asserts.append((f"infer/min_is_attained/index:{comp.name}", v.holds(z3.And(zor(R(x) == R(mnz) for x in ls), zand(R(x) >= R(mnz) for x in ls)))))
+                    asserts.append((f"infer/max_is_attained/index:{comp.name}", v.holds(z3.And(zor(R(x) == R(mxz) for x in ls), zand(R(x) <= R(mxz) for x in ls)))))
         if serialise and shape != "series":
             try:
                 s2 = IO.from_yaml(IO.to_yaml(schema))
@@ -2130,6 +2147,61 @@ def _is_slot(val, i):
     if isinstance(val, EqCell):
         return z3.BoolVal(val.slot == i)
     return _num_eq(val, z3.IntVal(i))
+
+
+def coerce_category_case(v, N, level):
+    """pandera's own Category.coerce / coerce_value (values outside the categories must not be silently turned into nulls) through
+    try_coerce and through a coercing column: succeeds iff every non-null value is a category; then values and nulls are unchanged;
+    otherwise the failure cases are exactly the elements outside the categories"""
+    from pandera import errors as E
+    from pandera.engines import pandas_engine
+
+    cats = ["a", "b"]
+    dt = pandas_engine.Category(cats)
+    labels = [z3.Int(f"l{i}") for i in range(N)]
+    asserts, facts = [], {}
+    if level == "column":
+        df = v.frame([("x", "str")], N, labels="l", distinct_labels=True)
+        xs, ns = v.cells("x_", "str", N, True)
+        inside = [z3.Or(*[x == z3.StringVal(c) for c in cats]) for x in xs]
+        bad = [z3.And(z3.Not(n), z3.Not(i)) for n, i in zip(ns, inside)]
+        schema = pa.DataFrameSchema({"x": pa.Column(dt, coerce=True, nullable=True)})
+        o = H.outcome(lambda: schema.validate(df))
+        facts["kind"] = o["kind"]
+        asserts.append(("coerce/column_accepts_iff_all_values_are_categories", v.iff(o["kind"] == "accept", z3.Not(zor(bad)))))
+        return dict(obs=None, asserts=asserts, facts=facts)
+    ser = v.series("x", "str", N, sname="s", labels="l", distinct_labels=True)
+    xs, ns = v.cells("x", "str", N, True)
+    inside = [z3.Or(*[x == z3.StringVal(c) for c in cats]) for x in xs]
+    bad = [z3.And(z3.Not(n), z3.Not(i)) for n, i in zip(ns, inside)]
+    snap = H.snapshot(ser)
+    try:
+        out = dt.try_coerce(ser)
+        facts["kind"] = "coerced"
+        asserts.append(("coerce/succeeds_only_if_all_convertible", v.holds(z3.Not(zor(bad)))))
+        asserts.append(("coerce/same_rows_and_labels", H.equal_to_snapshot(v, out, snap, values_only=True)))
+    except E.ParserError as exc:
+        facts["kind"] = "ParserError"
+        fc = exc.failure_cases
+        asserts.append(("coerce/fails_only_if_some_inconvertible", v.holds(zor(bad))))
+        if isinstance(fc, symframe.DataFrame):
+            cols = {k: c for k, c in fc._cols}
+            R = len(fc.present)
+            comp = [z3.Implies(bad[i], zor(z3.And(fc.present[r], _num_eq(cols["index"].vals[r], labels[i]), cols["failure_case"].vals[r] == xs[i]) for r in range(R))) for i in range(N)]
+            sound = [z3.Implies(fc.present[r], zor(z3.And(bad[i], _num_eq(cols["index"].vals[r], labels[i])) for i in range(N))) for r in range(R)]
+            asserts.append(("coerce/failure_cases_exact", v.holds(z3.And(zand(comp), zand(sound)))))
+        elif fc is None:
+            asserts.append(("coerce/failure_cases_exact", v.holds(False)))
+        else:
+            got = sorted(int(r["index"]) for _, r in fc.iterrows())
+            want = sorted(int(v.vals.term(labels[i])) for i in range(N) if v.vals.term(bad[i]))
+            asserts.append(("coerce/failure_cases_exact", got == want))
+    except Exception as exc:  # noqa: BLE001
+        facts["kind"] = "leak:" + type(exc).__name__
+        facts["_msg"] = str(exc)[:150]
+        asserts.append(("coerce/documented_error", v.holds(False)))
+    asserts.append(("coerce/input_unchanged", H.equal_to_snapshot(v, ser, snap)))
+    return dict(obs=None, asserts=asserts, facts=facts)
 
 
 def pa_engine_dtype(dt):
